@@ -107,6 +107,61 @@ fn exec_union_rows(input: &Value) -> Value {
     case
 }
 
+/// kind `len_hint` (repo fix 4c15f66): a `Serialize` impl that ANNOUNCES `n` elements (sequence, map, tuple struct, tuple /
+/// struct variant) and then sends none, handed to `SerdeArrowSchema::from_value`.  The hint is not data: the outcome must be
+/// the one of the honest announcement (0) — before the fix `Vec::with_capacity(n)` in utils/value.rs panicked with
+/// "capacity overflow" for n = usize::MAX and aborted on allocation failure for n = 2^40.
+struct Announce(&'static str, usize);
+
+impl Serialize for Announce {
+    fn serialize<S: Serializer>(&self, s: S) -> Result<S::Ok, S::Error> {
+        use serde::ser::{SerializeMap, SerializeStructVariant, SerializeTupleStruct, SerializeTupleVariant};
+        match self.0 {
+            "seq" => s.serialize_seq(Some(self.1))?.end(),
+            "map" => s.serialize_map(Some(self.1))?.end(),
+            "tuple_struct" => s.serialize_tuple_struct("T", self.1)?.end(),
+            "tuple_variant" => s.serialize_tuple_variant("E", 0, "A", self.1)?.end(),
+            _ => s.serialize_struct_variant("E", 0, "A", self.1)?.end(),
+        }
+    }
+}
+
+fn len_hint_cases() -> Vec<Value> {
+    let mut out = Vec::new();
+    let mut k = 0;
+    for shape in ["seq", "map", "tuple_struct", "tuple_variant", "struct_variant"] {
+        for n in [0u64, 7, 1 << 40, u64::MAX] {
+            out.push(json!({"id": format!("overflow-0003{k:02}"), "seed": 0, "kind": "len_hint", "shape": shape, "n": n}));
+            k += 1;
+        }
+    }
+    out
+}
+
+fn exec_len_hint(input: &Value) -> Value {
+    use serde_arrow::schema::{SchemaLike, SerdeArrowSchema};
+    let n = input["n"].as_u64().unwrap() as usize;
+    let shape: &'static str = match input["shape"].as_str().unwrap() {
+        "seq" => "seq",
+        "map" => "map",
+        "tuple_struct" => "tuple_struct",
+        "tuple_variant" => "tuple_variant",
+        _ => "struct_variant",
+    };
+    let run = |n: usize| {
+        outcome::run(|| {
+            let schema = SerdeArrowSchema::from_value(&Announce(shape, n))?;
+            Ok::<Value, serde_arrow::Error>(json!({"fields": serde_json::to_value(&schema).map(|v| v["fields"].as_array().map(|a| a.len())).ok()}))
+        })
+    };
+    let imp = run(n);
+    let honest = run(0);
+    let mut case = input.clone();
+    case.as_object_mut().unwrap().insert("impl".into(), imp);
+    case.as_object_mut().unwrap().insert("honest".into(), honest);
+    case
+}
+
 fn deep_term_cases() -> Vec<Value> {
     [0u64, 1, 3, 32, 33, 1000, 100_000, 1_000_000]
         .iter()
@@ -133,6 +188,7 @@ pub fn gen(ctx: &Ctx) -> Vec<Value> {
     if !ctx.thorough() {
         let mut cases = deep_term_cases();
         cases.extend(union_rows_cases(false));
+        cases.extend(len_hint_cases());
         return cases;
     }
     let mut cases = vec![
@@ -145,6 +201,7 @@ pub fn gen(ctx: &Ctx) -> Vec<Value> {
     ];
     cases.extend(deep_term_cases());
     cases.extend(union_rows_cases(true));
+    cases.extend(len_hint_cases());
     cases
 }
 
@@ -182,6 +239,9 @@ pub fn exec(input: &Value) -> Value {
     }
     if input["kind"] == "union_rows" {
         return exec_union_rows(input);
+    }
+    if input["kind"] == "len_hint" {
+        return exec_len_hint(input);
     }
     let n = input["n"].as_u64().unwrap();
     let fields = vec![Field {
